@@ -43,13 +43,34 @@ Definition exObs0 : obs := model_obs exK0 5 (init exP exB (ts0 * ns)) 0.
 Definition exK1 : case := mkCase exP 5 exIds exObs0 [].
 Definition exCase : case := mkCase exP 5 exIds exObs0 (mk_steps exK1 5 (case_init exK1) exCops).
 
-Ltac solve_trace :=
-  repeat match goal with
-         | |- _ /\ _ => split
-         | |- Vw _ _ _ _ _ => constructor
-         | |- True => exact Logic.I
-         | |- _ = _ => vm_compute; reflexivity
-         end.
+(** decidable versions of [Vw] and [trace_ok] (so that the example is closed by one [vm_compute] on a boolean) *)
+Definition Vw_b (k : case) (nd : nat) (s : state) (code : Z) (o : obs) : bool :=
+  (o_code o =? code) && (o_height o =? st_height s) && (o_time o =? st_time s) && (o_prev o =? st_prev s)
+  && eqb (o_contracts o) (cproj k s) && eqb (o_queue o) (qproj k s)
+  && eqb (o_bals o) (mat (accounts k) nd (bal (st_bank s)))
+  && eqb (o_sups o) (sproj_assets k s) && eqb (o_bsups o) (bsproj k s).
+
+Lemma Vw_b_sound k nd s code o : Vw_b k nd s code o = true -> Vw k nd s code o.
+Proof.
+  unfold Vw_b. intros H.
+  repeat match type of H with (_ && _ = true) => apply andb_true_iff in H; let H' := fresh "H" in destruct H as [H H'] end.
+  constructor; first [apply Z.eqb_eq; assumption | apply (proj1 (eqb_true_iff _ _)); assumption].
+Qed.
+
+Fixpoint trace_ok_b (k : case) (nd : nat) (s : state) (po : obs) (steps : list (cop * dobs)) : bool :=
+  match steps with
+  | [] => true
+  | (c, d) :: rest =>
+      let s' := step s (to_op k c) in
+      op_wf k c && Vw_b k nd s' (if step_ok s (to_op k c) then 0 else 1) (undiff po d) && trace_ok_b k nd s' (undiff po d) rest
+  end.
+
+Lemma trace_ok_b_sound k nd : forall steps s po, trace_ok_b k nd s po steps = true -> trace_ok k nd s po steps.
+Proof.
+  induction steps as [|[c d] rest IH]; intros s po H; simpl in *; [exact Logic.I|].
+  apply andb_true_iff in H. destruct H as [H H3]. apply andb_true_iff in H. destruct H as [H1 H2].
+  split; [exact H1|]. split; [exact (Vw_b_sound _ _ _ _ _ H2)|exact (IH _ _ H3)].
+Qed.
 
 Lemma exCase_hyps : hyps_b exCase = true.
 Proof. vm_compute. reflexivity. Qed.
@@ -65,10 +86,10 @@ Proof.
 Qed.
 
 Lemma exCase_init_view : Vw exCase 5 (case_init exCase) 0 (k_obs0 exCase).
-Proof. constructor; vm_compute; reflexivity. Qed.
+Proof. apply Vw_b_sound. vm_compute. reflexivity. Qed.
 
 Lemma exCase_trace : trace_ok exCase 5 (case_init exCase) (k_obs0 exCase) (k_steps exCase).
-Proof. vm_compute. solve_trace. Qed.
+Proof. apply trace_ok_b_sound. vm_compute. reflexivity. Qed.
 
 Lemma exCase_passes : check_case_C03 exCase = (-1, -1, 0) /\ check_case_C04 exCase = (-1, -1, 0).
 Proof. exact (model_passes_check_lemma exCase 5 exCase_hyps exCase_table exCase_init_view exCase_trace). Qed.
